@@ -1,7 +1,9 @@
 """C02 — Refining an allocation conserves tiling, module area and centroid.
 
 Correspondence: operation histories (1–6 operations among refine / uniform_refinement_depth / griddify, plus
-must_be_refined / area([...]) / center([...]) queries) starting from `Allocation(text)` or `Allocation(list)`,
+must_be_refined / area([...]) / center([...]) / num_rectangles / num_modules / max_refinement_depth / allocation_rectangle(i) /
+allocation_module(m) / check_compatible(netlist) queries, and OBJECT histories: a decision, then `rect.fixed = True` set in
+place on a cell of the same object, then the decision again) starting from `Allocation(text)` or `Allocation(list)`,
 implementation vs Lean model (`FV/Model/Alloc.lean`, driver `drv_alloc`): Q stream = dyadic layouts (float arithmetic
 exact; cell lists compared exactly with the model run at `Rat`), F stream = decimal / thirds / arbitrary doubles
 (model run at `Float`, expected bit-identical, accepted within 1e-9 and counted as drift).
@@ -18,7 +20,9 @@ DRIVERS = ["drv_alloc"]
 TRUSTED = [
     "Lean 4.33 kernel; Mathlib lemmas; axioms ⊆ {propext, Classical.choice, Quot.sound}",
     "hand-written model FV/Model/Alloc.lean (+ FV/Model/Geom.lean) — fidelity to frame/allocation/allocation.py and "
-    "frame/geometry/geometry.py checked by this correspondence run, not proved; `_module2rect` is modelled index-free",
+    "frame/geometry/geometry.py checked by this correspondence run, not proved; `_module2rect` is modelled as a function of the "
+    "cell list (`moduleAllocs`: index + ratio of every cell listing the module), compared with `allocation_module(m)` on every run; "
+    "`griddify` is the repaired fixpoint loop (fixes/C12_griddify_x_before_y.diff), its fuel proved irrelevant",
     "theorems are over exact ordered fields; IEEE rounding is executed (F stream), never proved",
     "YAML parsing (ruamel) is outside the model: the model starts from the parsed tree",
     "harness (Python) and compiled Lean driver: parsing, canonicalisation, comparison",
@@ -27,9 +31,13 @@ FLAVOUR = "mixed"
 
 
 def one(ctx: Ctx, rng, mode: str, pending: list, spec) -> None:
-    inp = ac.gen_input(rng, mode, FLAVOUR)
-    nops = rng.choice([1, 2, 3, 3, 4, 5, 6])
-    segs, steps, sqrt_ans = ac.run_impl(inp, rng, FLAVOUR, nops)
+    if rng.random() < 0.04:
+        inp = ac.gen_cascade_input(rng, mode)     # griddify needs several rounds of its two sweeps
+        segs, steps, sqrt_ans = ac.run_impl(inp)
+    else:
+        inp = ac.gen_input(rng, mode, FLAVOUR)
+        nops = rng.choice([1, 2, 3, 3, 4, 5, 6])
+        segs, steps, sqrt_ans = ac.run_impl(inp, rng, FLAVOUR, nops)
     pending.append((inp, segs, ac.request(inp, sqrt_ans), sqrt_ans))
     spec(ctx, inp, steps)
     valid = not segs[0].startswith("err")
@@ -56,6 +64,8 @@ def spec_steps(ctx: Ctx, inp: dict, steps) -> None:
             continue
         if op[0] in "RUG":
             ac.spec_c02_step(ctx, inp, idx, op, before, after, error)
+        elif op[0] in "NILK":
+            ac.spec_accessor(ctx, inp, idx, op, before, after, error)
 
 
 def flush(ctx: Ctx, pending: list, selftest: bool = False) -> None:
@@ -72,9 +82,11 @@ def flush(ctx: Ctx, pending: list, selftest: bool = False) -> None:
 def run(ctx: Ctx) -> None:
     ctx.rule = ("guillotine partitions of a die (1–9 cells, optional hole / offset / long thin die / sliver cuts) from 5 "
                 "coordinate families (int, half, dyadic: exact 'Q' stream; decimal, thirds, doubles: 'F' stream), random "
-                "occupancy maps over ≤5 modules (empty maps, zero and unit ratios included), depths 0–3, 30% with cells of fixed "
+                "(also one-decimal coordinates at magnitude 1e3..1e5, 60% away from the origin), 4% cascade layouts on which griddify needs "
+                "several rounds; occupancy maps over ≤5 modules (empty maps, zero and unit ratios included), depths 0–3, 30% with cells of fixed "
                 "modules, 8% invalid descriptor lists, tolerances undefined or preset; then 1–6 operations drawn on the "
-                "fly (refine with threshold from the ratio set and 1–3 levels, uniform depth, griddify, queries), capped at "
+                "fly (refine with threshold from the ratio set and 1–3 levels, uniform depth, griddify, queries incl. the read accessors; 6% "
+                "object histories [must_be_refined(t) | discarded refine(t)], cell flagged fixed in place, [refine(t) | must_be_refined(t)]), capped at "
                 f"{ac.MAX_CELLS} cells; non-trivial = the constructor accepted the input and at least one operation changed the "
                 "number of cells; distinct = distinct (cells, operations, fixed marks, tolerances)")
     ctx.assumptions.append("inputs are well-typed YAML trees (numbers, strings, dicts); type errors are outside the model")
